@@ -41,7 +41,10 @@ Record v1row := {
   c1_resolution_height : option N;          (* INTEGER *)
   c1_negotiation_height : N;                (* INTEGER NOT NULL *)
   c1_window_start : N;                      (* INTEGER NOT NULL *)
-  c1_window_end : N                         (* INTEGER NOT NULL *)
+  c1_window_end : N;                        (* INTEGER NOT NULL *)
+  (* not a column of its own: derived from raw_revision — the valid host payout of the
+     stored revision exceeds the missed one (update.go skips the proof otherwise) *)
+  c1_proof_benefit : bool
 }.
 
 (* table contract_v2_state_elements (contract_id is its PRIMARY KEY: at most one per contract) *)
